@@ -289,3 +289,76 @@ Example C14_connect_error_examples :
   check_args [create x [PN 0]; create (y 4 2) [PN 1]] = Ok [x; y 4 2] /\
   forallb nodims_sig [x; y 4 2] = true.
 Proof. vm_compute. repeat split. Qed.
+
+(* ================================================================== translated source
+   coq/Gen/WiringGen.v is regenerated from the text of /repo/amaranth/lib/wiring.py on every run
+   (translator/unit_wiring.py; every function is in the exception monad WiringGen.R, Ret | Raise exn).  The theorems
+   below (proofs in Proofs/GenEqWiring.v) say that each regenerated function is the function of Model/Wiring.v the
+   theorems above are about, on all inputs.  Recursion through other objects is generated open (parameter rec_):
+   the model function solves the generated equation and is its only solution. *)
+From V.Proofs Require Import GenEqWiring.
+From V.Gen Require WiringGen.
+
+(* Flow.flip, Member.flip, Member.array *)
+Theorem C14_translated_Flow_flip f : WiringGen.Flow_flip f = WiringGen.Ret (flip_flow f).
+Proof. exact (gen_Flow_flip_eq f). Qed.
+Print Assumptions C14_translated_Flow_flip.
+
+Theorem C14_translated_Member_flip m : WiringGen.Member_flip m = WiringGen.Ret (flip_member m).
+Proof. exact (gen_Member_flip_eq m). Qed.
+Print Assumptions C14_translated_Member_flip.
+
+Theorem C14_translated_Member_array m ds :
+  WiringGen.Member_array m ds = WiringGen.Ret (member_array m ds) /\ m_dims (member_array m ds) = ds ++ m_dims m.
+Proof. exact (conj (gen_Member_array_eq m ds) (gen_Member_array_dims m ds)). Qed.
+Print Assumptions C14_translated_Member_array.
+
+(* Member.signature: the description, flipped when the flow is In (AttributeError on a port member) *)
+Theorem C14_translated_Member_signature m :
+  WiringGen.Member_signature m =
+  if m_is_port m then WiringGen.Raise WiringGen.XAttribute else WiringGen.Ret (member_signature m).
+Proof. exact (gen_Member_signature_eq m). Qed.
+Print Assumptions C14_translated_Member_signature.
+
+(* Signature.flip / FlippedSignature.flip (dispatch on the class of the value) and `.members` *)
+Theorem C14_translated_Signature_flip x :
+  WiringGen.d_flip x = WiringGen.Ret (sig_flip x) /\ WiringGen.d_members x = WiringGen.Ret x.
+Proof. exact (conj (gen_Signature_flip_eq x) (gen_members_eq x)). Qed.
+Print Assumptions C14_translated_Signature_flip.
+
+(* SignatureMembers / FlippedSignatureMembers: __getitem__ (flipped on the proxy), __iter__, items() *)
+Theorem C14_translated_members_getitem v n :
+  WiringGen.d_getitem v n = match assoc n (snd v) with
+                            | Some m => WiringGen.Ret (flipm (fst v) m)
+                            | None => WiringGen.Raise WiringGen.XSignature
+                            end.
+Proof. exact (gen_getitem_eq v n). Qed.
+Print Assumptions C14_translated_members_getitem.
+
+Theorem C14_translated_members_items v :
+  nodupb (map fst (snd v)) = true ->
+  WiringGen.d_iter v = WiringGen.Ret (map fst (snd v)) /\ WiringGen.d_items v = WiringGen.Ret (sig_members v).
+Proof. intros H. exact (conj (gen_iter_eq v) (gen_items_eq v H)). Qed.
+Print Assumptions C14_translated_members_items.
+
+(* SignatureMembers.flatten: the model's flat_ms satisfies the regenerated recursion equation ... *)
+Theorem C14_translated_flatten v p :
+  nodupb (map fst (snd v)) = true ->
+  WiringGen.Members_flatten_F flat_rec v p = WiringGen.Ret (flat_ms (fst v) p (snd v)).
+Proof. exact (gen_flatten_eq v p). Qed.
+Print Assumptions C14_translated_flatten.
+
+(* ... and every function that satisfies it is flat_ms on signatures whose dictionaries have distinct keys *)
+Theorem C14_translated_flatten_unique (rec : sigt -> list Z -> WiringGen.R (list entry)) :
+  (forall v p, rec v p = WiringGen.Members_flatten_F rec v p) ->
+  forall x, names_ok (top x) = true -> forall p, rec x p = WiringGen.Ret (flat_ms (fst x) p (snd x)).
+Proof. exact (gen_flatten_unique rec). Qed.
+Print Assumptions C14_translated_flatten_unique.
+
+Example C14_translated_flatten_example :
+  let x := (true, [(0, Iface FIn false [(1, Port FOut (Sh 3 true) (-2) [2%nat])] []); (2, Port FIn (Sh 1 false) 0 [])]) in
+  nodupb (map fst (snd x)) = true /\ names_ok (top x) = true /\
+  WiringGen.Members_flatten_F flat_rec x [] =
+  WiringGen.Ret [([0], Iface FOut false [(1, Port FOut (Sh 3 true) (-2) [2%nat])] []);
+                 ([0; 1], Port FOut (Sh 3 true) (-2) [2%nat]); ([2], Port FOut (Sh 1 false) 0 [])].
+Proof. vm_compute. repeat split. Qed.
